@@ -1054,12 +1054,8 @@ class FortranFile:
         if curr_line is None:
             return [], None, []
         # Fixed form: a zero in column 6 marks an initial line just like a blank
-        if (
-            self.fixed
-            and curr_line[5:6] == "0"
-            and curr_line[:5].strip(" 0123456789") == ""
-        ):
-            curr_line = curr_line[:5] + " " + curr_line[6:]
+        if self.fixed:
+            curr_line = self.fixed_blank_zero(curr_line)
         # Search backward for prefix lines
         line_ind = line_no - 1
         pre_lines = []
@@ -1086,7 +1082,7 @@ class FortranFile:
                         pre_lines[-1] = " " * 6 + pre_lines[-1][6:]
                     # One entry per line of the file, as in the forward search
                     pre_lines += [""] * skipped
-                    tmp_line = self.get_line(line_ind, pp_content)
+                    tmp_line = self.fixed_blank_zero(self.get_line(line_ind, pp_content))
                     pre_lines.append(self.fixed_strip_comment(tmp_line))
                     line_ind -= 1
             else:  # Free format file
@@ -1193,6 +1189,13 @@ class FortranFile:
             curr_line = self.strip_comment(curr_line)
         pre_lines.reverse()
         return pre_lines, curr_line, post_lines
+
+    @staticmethod
+    def fixed_blank_zero(line: str) -> str:
+        """Fixed form: an initial line may carry a zero in column 6"""
+        if line[5:6] == "0" and line[:5].strip(" 0123456789") == "":
+            return line[:5] + " " + line[6:]
+        return line
 
     @staticmethod
     def fixed_is_comment(line: str | None) -> bool:
